@@ -256,6 +256,9 @@ impl Property for C10 {
         if rng.chance(1, 8) && !case.opts.iter().flatten().any(|t| t.contains("&index-in-file")) {
             case.set("file_times", rng.range(2, 3) as i64);
         }
+        // history: an earlier --unique run in the same process that was cut short by a failing
+        // read must leave nothing behind for this one
+        case.set("prelude", i64::from(rng.chance(1, 6)));
         case.hash_seeds = (0..3).map(|_| rng.next_u64() >> 1).collect();
         case.set("pairs_seed", (rng.next_u64() >> 1) as i64);
         case.delivery = gen_delivery(rng, case.stream().len());
@@ -317,6 +320,21 @@ impl Property for C10 {
         }
         let mut uniq = case.clone();
         uniq.opts.push(vec!["--unique".into()]);
+        if case.param("prelude") == 1 && stream.len() > 4 {
+            let mut spec = case_spec(&uniq, &stream);
+            spec.delivery.whole = false;
+            spec.rfault = Some(crate::world::Fault {
+                at: stream.len() * 2 / 3,
+                kind: crate::world::ErrKind::Other,
+                sticky: true,
+            });
+            let pre = ctx.exec(spec);
+            ctx.stats.probe("history: an aborted --unique run precedes the scenario");
+            if matches!(pre.outcome, crate::run::Outcome::Panic(..)) {
+                return None;
+            }
+            ctx.jawk_panic = None;
+        }
         let mut first_out: Option<Vec<u8>> = None;
         for (si, hs) in case.hash_seeds.iter().enumerate() {
             let mut spec = if file_times >= 2 {
